@@ -487,7 +487,8 @@ pub fn gen_case(src: &mut Src) -> C14Case {
           *a = window;
         }
       }
-      let n_mut = src.range(1, 3);
+      // (a generated program may also go in as it is: what the grammar can write is input too)
+      let n_mut = if name == "c13-program" && src.chance(30) { 0 } else { src.range(1, 3) };
       let mut kinds = Vec::new();
       for _ in 0..n_mut {
         kinds.push(mutate_once(src, &mut v));
